@@ -234,4 +234,4 @@ THEOREMS = ['C02_atomic', 'C02_log_only_accepted', 'C02_add_only_scheduled', 'C0
             'C02_card_shape', 'C02_flags_follow_card', 'C02_accepted_trial_open_cell', 'allConsec_reachable',
             'C02_three_consecutive_failures', 'C02_trial_accepted_iff_allowed', 'C02_trial_accepted_iff', 'C02_state_gate',
             'limInv_reachable', 'C02_limit_is_three_or_one', 'C02_attempts_at_height', 'C02_trial_accepted_iff_started',
-            'C02_jumpoff_accepted_iff', 'C02_out_iff_card', 'C02_trial_accepted_iff_won', 'C02_won_others_refused']
+            'C02_jumpoff_accepted_iff', 'C02_out_iff_card', 'C02_trial_accepted_iff_won', 'C02_won_others_refused', 'C02_back_only_with_one_attempt']
